@@ -346,6 +346,40 @@ def c05_fills(tr, out):
             out.v("fok-filled-after-placement", {"side": f["side"]}, fragment=f, placement=p)
 
 
+def c05_available(tr, out, snaps_by_market):
+    """config.simulation_available_prices: a resting order is also filled from the sizes offered at or better than its limit in
+    the update being processed.  Each such fragment must be covered by a level that the raw file shows in THAT update."""
+    by_pt = {(m, s["pt"]): s for m, snaps in snaps_by_market.items() for s in snaps}
+    per = collections.defaultdict(list)
+    for f in tr.fragments:
+        if f["caller"] != "_calculate_process_available":
+            continue
+        per[(f["o"], f["tick"])].append(f)
+    for (o, tick), fs in per.items():
+        out.rule("available")
+        order = tr.orders.get(o)
+        tk = tr.ticks[tick] if 0 <= tick < len(tr.ticks) else None
+        if order is None or tk is None:
+            continue
+        snap = by_pt.get((tk["market"], tk["pt"]))
+        if snap is None or tk["market"] != order.market_id:
+            out.v("available-fill-outside-own-market-update", {"side": order.side}, order=o, tick=tk)
+            continue
+        rb = snap["runners"].get((order.selection_id, order.handicap))
+        limit = fs[0]["limit"]
+        if rb is None:
+            continue
+        book = rb["atb"] if order.side == "BACK" else rb["atl"]
+        levels = [sz for pr, sz in book.items() if (pr >= limit - 1e-9 if order.side == "BACK" else pr <= limit + 1e-9)]
+        took = sum(f["frag"][2] for f in fs)
+        out.d("c05avail:%s:%d:%d" % (order.side, min(len(levels), 3), min(len(fs), 3)))
+        if took > sum(levels) + 0.006 or any(f["frag"][2] > max(levels or [0.0]) + 0.006 for f in fs):
+            out.v("took-more-than-available", {"side": order.side, "fok": False, "bpe": True, "rel": "resting", "via": "available"}, order=o, took=took, levels=levels, limit=limit, pt=tk["pt"])
+        for f in fs:
+            if abs(f["frag"][1] - limit) > 1e-9:
+                out.v("fill-worse-than-limit", {"side": order.side, "fok": False, "via": "available"}, fragment=f)
+
+
 # -------------------------------------------------------------------------------------------
 # C07 latency / bet delay
 # -------------------------------------------------------------------------------------------
@@ -708,6 +742,15 @@ def c09_removals(tr, out, snaps_by_market, case, tags):
                             out.v("matched-price-changed-without-removal", {"cause": cause}, order=o, before=prev, after=s)
                     if s["otype"] == "MOC" and prev["liability"] is not None and abs(s["liability"] - prev["liability"]) > 1e-9:
                         out.v("sp-liability-changed-without-removal", {"cause": cause}, order=o, before=prev, after=s)
+            # ---- after a removal in its market, the reported average price is that of the (reduced) fills
+            first_rem = min((r[0] for r in rems), default=None)
+            if first_rem is not None and t >= first_rem and s["phase"] != "pre" and s["otype"] == "LIMIT" and s["frags"] and (own_removed_tick is None or t < own_removed_tick):
+                out.rule("average")
+                msum = sum(f[2] for f in s["frags"])
+                if msum > 0:
+                    true_avg = sum(f[1] * f[2] for f in s["frags"]) / msum
+                    if abs(true_avg - s["apm"]) > 0.005 + 1e-9:
+                        out.v("average-price-not-that-of-reduced-fills", {"cause": cause, "later_fill": len(s["frags"]) > 1}, order=o, sample=s, true_avg=true_avg)
             prev = s
     # a removal in the file that never produced a tick is outside what was observed
     out.c("removals_in_files", sum(len(v) for v in removal_ticks.values()))
